@@ -246,13 +246,14 @@ class Runner(object):
         ck.cov['skeleton_membership_checks'] = self.n_membership
 
 
-def runt_faults(d, cmd):
-    """scenario independent runt / inconsistent frames, as the response and in place of the ACK"""
+def runt_faults(d, cmd, thorough):
+    """scenario independent runt / inconsistent frames, as the response and in place of the ACK
+    (quick tier: only the runts of up to 9 bytes in place of the ACK)"""
     proto = 'acr122' if d == 'acr122' else ('rcs380' if d == 'rcs380' else 'pn53x')
     frames = CS.runt_corpus(proto, cmd)
     fs = [('garbled', f) for f in frames]
     if proto != 'acr122':
-        fs += [('ackgarbled', f) for f in frames]
+        fs += [('ackgarbled', f) for f in frames if thorough or len(f) <= 9]
     return fs
 
 
@@ -300,7 +301,7 @@ def fault_set(ck, d, cmd, has_status, frame_len, thorough):
            ('garbled', bytes.fromhex('0000ff02fed5')), ('garbled', bytes.fromhex('0000ffffff0200fed7059e00')),
            ('garbled', bytes.fromhex('0000ffffff')), ('garbled', bytes.fromhex('0000ffffff01')),
            ('garbled', bytes.fromhex('0000ffffff0100ffd72900')), ('garbled', b'\x80' + bytes(9))]
-    fs += runt_faults(d, cmd)
+    fs += runt_faults(d, cmd, thorough)
     return fs
 
 
@@ -327,7 +328,7 @@ def phys_fault_set(ck, d, cmd, has_status, frame_len, thorough):
     fs += [('garbled', bytes.fromhex(h)) for h in ('00', '0000', '0000ff', '0000ffff', '0000ffffff', '0000ffffff01', '0000ffffff0102',
                                                    '0000ffffff010203', '0000ff05', '0000ff05fb', '0000ff00ff', '0000ff00ff00',
                                                    '0000ffffff0010f00000000000', '80', '8000000000')]
-    fs += runt_faults(d, cmd)
+    fs += runt_faults(d, cmd, thorough)
     return fs
 
 
